@@ -10,6 +10,8 @@
 //!        "which_after": bool (a `which_scenario` classifier installed AFTER init_tracing()),
 //!         "steps": [{"id": st, "pre": n, "yields": n, "post": n, "inner": bool (messages are emitted inside a user
 //!                    span nested in the step's span), "under": bool (the message text contains double underscores),
+//!                    "off_thread": bool (one more message, emitted by a helper thread without a current span, with the
+//!                    step's span as its explicit parent),
 //!                    "leak": bool (a clone of the step's span is held beyond the step's end and dropped inside a step of
 //!                    another scenario: the span outlives its future, the close arrives AFTER the subscription)}]}]}
 //! History records: ["cb", scenario, step, attempt, span] ["emit", scenario, message id, span] ["close", span] ["sub", span] ["fwd"]
@@ -119,6 +121,7 @@ impl Future for DrainYield {
 struct St {
     steps: BTreeMap<u64, (u64, u64, u64, bool, bool)>, // step id -> pre, yields, post, inner, under
     leaky: std::collections::BTreeSet<u64>, // steps that hold a clone of their span beyond their own end
+    off_thread: std::collections::BTreeSet<u64>, // steps that also log from a helper thread (explicit parent span)
     leaked: Vec<(tracing::Span, u64)>,   // with the number of yield polls seen since
     yielders: u64,
     nsteps: BTreeMap<u64, u64>,
@@ -160,6 +163,32 @@ fn emit(sid: u64, span: u64, under: bool) {
     }
 }
 
+/// A message emitted by a helper thread that has NO current span, with the step's span as its explicit parent (what a
+/// blocking worker handed `Span::current()` does). The thread is joined at once, so the message is emitted at this
+/// point of the step; the harness's own record is made here, on the runner's thread.
+fn emit_off_thread(sid: u64, span: u64) {
+    let m = ST.with(|s| {
+        let mut s = s.borrow_mut();
+        s.next_msg += 1;
+        s.next_msg
+    });
+    verif_trace::record("emit", sid * 1_000_000 + m, span);
+    let warn = ST.with(|s| s.borrow().warn);
+    let parent = tracing::Span::current();
+    let dispatch = tracing::dispatcher::get_default(Clone::clone);
+    std::thread::spawn(move || {
+        tracing::dispatcher::with_default(&dispatch, || {
+            if warn {
+                tracing::warn!(parent: &parent, "LOGMSG#{m}#");
+            } else {
+                tracing::info!(parent: &parent, "LOGMSG#{m}#");
+            }
+        });
+    })
+    .join()
+    .expect("helper thread");
+}
+
 fn logging_step(_: &mut W, ctx: step::Context) -> LocalBoxFuture<'_, ()> {
     async move {
         let mut it = ctx.step.value.split(' ');
@@ -199,6 +228,9 @@ fn logging_step(_: &mut W, ctx: step::Context) -> LocalBoxFuture<'_, ()> {
         say(pre);
         DrainYield::new(yields).await;
         say(post);
+        if ST.with(|s| s.borrow().off_thread.contains(&stid)) {
+            emit_off_thread(sid, span);
+        }
         // `leak`: the span outlives the step's future (as when a task spawned `.in_current_span()` is still alive): a
         // clone of it is parked until a step of another scenario is polled — only if one is certain to be
         let leak = ST.with(|s| {
@@ -311,6 +343,9 @@ fn main() {
         for st in sc["steps"].as_array().into_iter().flatten() {
             let stid = st["id"].as_u64().unwrap_or(0);
             s.steps.push(util::step(gherkin::StepType::Given, &format!("log {sid}"), stid as usize));
+            if st["off_thread"].as_bool().unwrap_or(false) {
+                ST.with(|x| x.borrow_mut().off_thread.insert(stid));
+            }
             if st["leak"].as_bool().unwrap_or(false) {
                 ST.with(|x| x.borrow_mut().leaky.insert(stid));
             }
